@@ -108,7 +108,7 @@ def eval_case(case, rng):
     if case.get("real"):
         return eval_real(case, rng)
     quic = rng.random() < 0.35
-    fl = gen.random_quic_flow(rng, napp=rng.choice([3, 8])) if quic else gen.random_tls_flow(rng, nmax=10, segkinds=tcpcap.CUT_KINDS, min_records=1, perturb=rng.random() < 0.15)
+    fl = gen.random_quic_flow(rng, napp=rng.choice([3, 8])) if quic else gen.random_tls_flow(rng, nmax=10, big=case["i"] % 6 == 2, segkinds=tcpcap.CUT_KINDS, min_records=1, perturb=rng.random() < 0.15)      # a sixth with full-size (2^14) records
     items = scene.stamp(scene.merge([fl], rng, "concat"), rng, rng.choice(["plain", "plain", "zero"] + (["coarse"] if not quic else [])))
     keys = scene.keylog_text([fl], rng)
     extra, mapargs = [], None
